@@ -3,18 +3,31 @@ C03 — analysis is total.  Closed-world part: dispatch sites with a panicking d
 
 A *site* is a `switch` in an analyzer (or in the IR builder / helpers the analyzers run
 through) whose default clause panics (`panic(...)` or `lint.ExhaustiveTypeSwitch`).
-`domain` is the closed set of kinds the scrutinee can have (enumerated from source or
-by probing the real builder), `handled` the kinds named by a case, `excused` the kinds
-that cannot reach the switch by construction (documented in checks/c03_expect.json).
+`domain` is the closed set of kinds the scrutinee can have (enumerated from source, from
+the toolchain's export data — implementers of go/ast and go/types interfaces — or by
+probing the real builder), `handled` the kinds named by a case, `excused` the kinds that
+cannot reach the switch by construction (documented in checks/c03_expect.json).
 Kinds are numbered (index into `Gen.kindNames`) so that the kernel compares naturals.
+
+Some sites are preceded by a statement that removes wrapper nodes from the scrutinee
+(`unused.graph.stmt`: `for { if l, ok := stmt.(*ast.LabeledStmt); ok { stmt = l.Stmt }
+else { break } }`).  The extractor recognises that statement structurally and records
+whether it is a loop (`Strip.loop`: all wrappers removed) or a single `if`
+(`Strip.once`: one wrapper removed) and which kind (`stripKind`) it removes.
 -/
 namespace Verif.C03
 
+inductive Strip where
+  | none | once | loop
+deriving DecidableEq, Repr
+
 structure Site where
-  id      : String
-  domain  : List Nat
-  handled : List Nat
-  excused : List Nat
+  id        : String
+  domain    : List Nat
+  handled   : List Nat
+  excused   : List Nat
+  strip     : Strip := .none
+  stripKind : Nat := 0
 deriving Repr
 
 inductive Outcome where
@@ -33,15 +46,37 @@ def runSite (s : Site) : List Nat → Outcome
     | .panic => .panic
     | .ok => runSite s ks
 
-/-- The table obligation for one site. -/
-def siteTotal (s : Site) : Bool :=
-  s.domain.all fun k => s.handled.contains k || s.excused.contains k
+/-- A kind of the domain is covered if a case names it, if it is excused, or if the
+stripping loop in front of the switch removes it. -/
+def covered (s : Site) (k : Nat) : Bool :=
+  s.handled.contains k || s.excused.contains k || (s.strip == .loop && k == s.stripKind)
 
-/-- A kind can reach the switch if it is in the domain and not excused. -/
-def Reaches (s : Site) (k : Nat) : Prop := k ∈ s.domain ∧ k ∉ s.excused
+/-- The table obligation for one site. -/
+def siteTotal (s : Site) : Bool := s.domain.all (covered s)
+
+/-- A kind can reach the switch if it is in the domain, not excused, and not removed by a
+stripping loop. -/
+def Reaches (s : Site) (k : Nat) : Prop :=
+  k ∈ s.domain ∧ k ∉ s.excused ∧ ¬ (s.strip = .loop ∧ k = s.stripKind)
 
 /-- Kinds that violate the obligation (for reporting). -/
-def missing (s : Site) : List Nat :=
-  s.domain.filter fun k => !(s.handled.contains k || s.excused.contains k)
+def missing (s : Site) : List Nat := s.domain.filter fun k => !(covered s k)
+
+/-- A node as the caller passes it: `labels` wrapper layers (`*ast.LabeledStmt`) around a
+statement of kind `kind`. -/
+structure Node where
+  labels : Nat
+  kind   : Nat
+deriving Repr, DecidableEq
+
+/-- The kind the switch sees after the stripping statement ran on the node. -/
+def seen (s : Site) (n : Node) : Nat :=
+  match s.strip with
+  | .none => if n.labels = 0 then n.kind else s.stripKind
+  | .once => if n.labels ≤ 1 then n.kind else s.stripKind
+  | .loop => n.kind
+
+/-- The site run on wrapped nodes. -/
+def runWrapped (s : Site) (ns : List Node) : Outcome := runSite s (ns.map (seen s))
 
 end Verif.C03
